@@ -270,8 +270,11 @@ def run(P, R, tier):
     from ..engines import proto as _pacc
     n_acc_ = 0
     for nm_ in ("_sum_n_statistics", "_sum_f_statistics"):
+        _pacc.check_label_compares(P, R, "factor_analysis:FactorAnalysisBase." + nm_)
+    for nm_ in ("_sum_n_statistics", "_sum_f_statistics"):
         n_acc_ += _pacc.check_accumulation_signs(P, R, "factor_analysis:FactorAnalysisBase." + nm_)
     R.floor("ACC.sum in-place accumulations", n_acc_, 2)
 
 
 EXPLANATION += ' Also: (POL.residual-placement / PREC.placement) every factor of the residuals multiplies and the UBM variances divide; (OPT) optional factors are used only where present and an absent factor contributes 0 / None; (IDX.class-select) the per-class selection compares labels with ==; (DTYPE.raw) no float is stored into a buffer with the dtype of user statistics.'
+EXPLANATION += ' (ACC.sum) the per-class statistic sums add (+=, add.at, or a full-slice store of a non-negative grouped sum); (IDX.class-eq) one-hot memberships compare by equality; (DIM) per-class session factors have layout (r_U, sessions).'
